@@ -1,9 +1,53 @@
 (** C03 — the tokens read from the Spyne source by harness/translate/flatkeys.py (Gen/FlatKeys.v,
     regenerated on every run) are the ones the hand-written model uses. *)
 From Coq Require Import ZArith List Bool.
-From SpyneV Require Import Base.Prelude C03.Model C03.Spec Gen.FlatKeys.
+From Coq Require Import Lia ZifyBool.
+From SpyneV Require Import Base.Prelude C03.Model C03.Spec C03.SourceIdioms Gen.FlatKeys.
 Import ListNotations.
 Open Scope Z_scope.
+
+(** re's parse tree of \[([0-9]+)] : a literal '[', group 1 = one or more of the range '0'..'9', a literal ']'
+    [( LITERAL 91), ( SUBPATTERN ( 1 0 0 [( MAX_REPEAT ( 1 inf [( IN ( ( RANGE ( 48 57))))]))])), ( LITERAL 93)] *)
+Definition RE_TREE : text := [91; 40; 76; 73; 84; 69; 82; 65; 76; 32; 57; 49; 41; 44; 32; 40; 83; 85; 66; 80; 65; 84; 84; 69; 82; 78; 32; 40; 49; 32; 48; 32; 48; 32; 91; 40; 77; 65; 88; 95; 82; 69; 80; 69; 65; 84; 32; 40; 49; 32; 105; 110; 102; 32; 91; 40; 73; 78; 32; 40; 40; 82; 65; 78; 71; 69; 32; 40; 52; 56; 32; 53; 55; 41; 41; 41; 41; 93; 41; 41; 93; 41; 41; 44; 32; 40; 76; 73; 84; 69; 82; 65; 76; 32; 57; 51; 41; 93].
+
+(* ---------------------------------------------------------------- idioms: every alternative is the model's *)
+Lemma conv_enum_slice c : (forall i, 0 <= i -> c i = Z.odd i) -> forall parts, conv_enum c parts = conv_slice parts.
+Proof.
+  intros Hc parts. unfold conv_enum, conv_slice.
+  assert (G : forall parts i, 0 <= i -> conv_enum_from c i parts = conv_slice_from (Z.odd i) parts).
+  { induction parts0 as [|p r IH]; intros i Hi; [reflexivity|]. simpl. rewrite (Hc i Hi). f_equal.
+    rewrite (IH (i + 1)) by lia. f_equal. rewrite Z.add_1_r, Z.odd_succ, <- Z.negb_odd. reflexivity. }
+  exact (G parts 0 ltac:(lia)).
+Qed.
+
+Lemma py_split1_cut s : forall cur, 
+  let nv := map Some (py_split1 61 s cur) in
+  let nv := if Z.of_nat (length nv) =? 2 then nv else nv ++ [None] in
+  (match nth_error nv 0 with Some (Some a) => a | _ => [] end,
+   match nth_error nv 1 with Some (Some b) => Some b | _ => None end) = split_eq s cur.
+Proof.
+  induction s as [|x r IH]; intros cur; [reflexivity|]. cbn [py_split1 split_eq].
+  destruct (x =? 61); [reflexivity | apply IH].
+Qed.
+Lemma cut_by_split_eq s : cut_by_split 61 s = split_eq s [].
+Proof. apply py_split1_cut. Qed.
+
+Lemma py_partition_cut s : forall cur,
+  (let '(a, e, b) := py_partition 61 s cur in (a, match e with [] => None | _ => Some b end)) = split_eq s cur.
+Proof.
+  induction s as [|x r IH]; intros cur; [reflexivity|]. cbn [py_partition split_eq].
+  destruct (x =? 61); [reflexivity | apply IH].
+Qed.
+Lemma cut_by_partition_eq s : cut_by_partition 61 s = split_eq s [].
+Proof. apply py_partition_cut. Qed.
+
+(** the index test of an enumerate() comprehension: whatever spelling of "i is odd" over i mod 2 *)
+Ltac odd_test :=
+  let i := fresh "i" in let Hi := fresh "Hi" in
+  intros i Hi; rewrite Zodd_mod; unfold Zeq_bool;
+  let H := fresh "H" in
+  assert (H : i mod 2 = 0 \/ i mod 2 = 1) by (pose proof (Z.mod_pos_bound i 2 ltac:(lia)); lia);
+  destruct H as [H | H]; rewrite H; reflexivity.
 
 Lemma src_s2cmi_loop_eq m : forall nidx nv, src_s2cmi_loop m nidx nv = s2cmi_loop m nidx nv.
 Proof. induction m as [|[i v] r IH]; intros nidx nv; simpl; [reflexivity|]. rewrite !IH. reflexivity. Qed.
@@ -15,15 +59,19 @@ Definition source_flags_ok : bool := src_sort_natural && src_sti_per_branch && s
 
 Lemma source_tie :
   (forall m nidx, src_s2cmi m nidx = s2cmi m nidx) /\
-  src_re_array_index = [92; 91; 40; 91; 48; 45; 57; 93; 43; 41; 93] /\      (* \[([0-9]+)] *)
+  src_re_array_index = RE_TREE /\
   (forall a b, src_strict_reject a b = (a >? b)) /\
   (forall a b, src_strict_append a b = (a =? b)) /\
   src_empty_read = EMPTY /\ src_empty_written = EMPTY /\
   src_index_format = [37; 115; 91; 37; 100; 93] /\                          (* %s[%d] *)
-  src_qs_separators = [38; 59] /\ src_qs_equals = 61 /\ src_qs_plus = (43, 32) /\
+  src_qs_separators = [38; 59] /\ (forall s, src_qs_cut s = split_eq s []) /\ src_qs_plus = (43, 32) /\
   src_header_date_format = [37; 115; 44; 32; 37; 48; 50; 100; 32; 37; 115; 32; 37; 48; 52; 100; 32; 37; 48; 50; 100; 58; 37; 48; 50; 100; 58; 37; 48; 50; 100; 32; 71; 77; 84] /\   (* %s, %02d %s %04d %02d:%02d:%02d GMT *)
-  src_weekday = WEEKDAY /\ src_month = MONTH.
+  src_weekday = WEEKDAY /\ src_month = MONTH /\
+  (forall parts, src_natural_key_conv parts = conv_slice parts).
 Proof.
   split; [intros m nidx; unfold src_s2cmi, s2cmi; now rewrite src_s2cmi_loop_eq|].
-  repeat split; reflexivity.
+  repeat match goal with |- _ /\ _ => split end;
+    first [ reflexivity
+          | intros s; unfold src_qs_cut; first [apply cut_by_split_eq | apply cut_by_partition_eq]
+          | unfold src_natural_key_conv; first [intros; reflexivity | apply conv_enum_slice; odd_test] ].
 Qed.
